@@ -60,6 +60,9 @@ def run(what, tier, jobs, seed):
         return sensitivity(os.environ.get('VERIF_MUTANT'), tier, jobs)
     if what == 'seeded':
         return sensitivity(os.environ.get('VERIF_MUTANT'), tier, jobs, index='seeded/index.json')
+    if what == 'conformance':
+        from . import realpeer
+        return realpeer.conformance()
     print('unknown selftest %r' % what)
     return 2
 
